@@ -272,29 +272,67 @@ def m2_rows(run, project, L):
     if f is None:
         raise AnalysisError("M2: pretty_attrs not found")
 
-    class P:
-        def __init__(self, parts):
-            self.parts = tuple(parts)
-
-        def __add__(self, o):
-            return P(self.parts + (o,))
-        __truediv__ = __add__
-
-        def __eq__(self, o):
-            return isinstance(o, P) and self.parts == o.parts
-
-        def __hash__(self):
-            return hash(self.parts)
-
-        def __repr__(self):
-            return "path" + "".join(f"/{x}" for x in self.parts)
     n = 0
     for k, c, bf in bitfield_types(L):
         size = L.int_size(c)
         width = 8 * size
         masks = sorted(bf.masks.items(), key=lambda kv: kv[1])
-        attrs = [TypeRef("mask", attrs={"_value": m_, "_name": nm, "_details": None}) for nm, m_ in masks]
-        word = TypeRef(k, attrs={"_value": SymVec.unknown(width), "_int_size": size, "attributes": lambda attrs=attrs: list(attrs)})
+        rows = fold_pretty_attrs(project, k, size, SymVec.unknown(width), [(nm, m_, None) for nm, m_ in masks])
+        want = []
+        for nm, m_ in masks:
+            text_ = [("v", i) if (m_ >> i) & 1 else "." for i in range(width - 1, -1, -1)]
+            want.append(("row", None, RowPath((("node", nm),)), None, SymStr(text_) if any(isinstance(x, tuple) for x in text_) else "".join(text_)))
+        n += 1
+        ok = rows == want
+        why = ""
+        if not ok:
+            if isinstance(rows, str):
+                why = rows
+            elif len(rows) != len(want):
+                why = f"{len(rows)} rows for {len(want)} masks"
+            else:
+                j = next(i for i, (a_, b_) in enumerate(zip(rows, want)) if a_ != b_)
+                why = f"row {j} ({masks[j][0]}, mask {masks[j][1]:#x}) is {rows[j]!r}, required {want[j]!r}"
+        run.ob("M2", ok, f"{k}: one row per mask, value bits under mask ones and dots elsewhere",
+               f"the bit rows of a {k} word are wrong: {why} (v = a bit of the value, . = a dot; a row must show exactly the bits of its "
+               "mask, at their positions in the word, padded to the full width)", module=mod, node=f, func="pretty_attrs",
+               construct="pretty_attrs rows")
+    run.require(n >= 12, f"M2: bit rows folded over only {n} attribute types")
+
+
+class RowPath:
+    def __init__(self, parts):
+        self.parts = tuple(parts)
+
+    def __add__(self, o):
+        return RowPath(self.parts + (o,))
+    __truediv__ = __add__
+
+    def __eq__(self, o):
+        return isinstance(o, RowPath) and self.parts == o.parts
+
+    def __hash__(self):
+        return hash(self.parts)
+
+    def __repr__(self):
+        return "path" + "".join(f"/{x}" for x in self.parts)
+
+
+def fold_pretty_attrs(project, k, size, value, masks):
+    """the rows pretty_attrs yields for an event whose value is a `size`-byte word of type `k` with the bits `value` and the
+    attributes `masks` = [(name, mask, details)], as ("row", type, path, hex, text) tuples - or a str that says why there are
+    none (evaluated by the mini interpreter from the source)"""
+    from ..minieval import Imprecise, Interp, NeedBit, Raised, TypeRef
+    mod = project.module(PRETTY)
+    f = mod.functions().get("pretty_attrs")
+    if f is None:
+        raise AnalysisError("M2: pretty_attrs not found")
+    P = RowPath
+    if True:
+        attrs = [TypeRef("mask", attrs={"_value": m_, "_name": nm, "_details": d_}) for nm, m_, d_ in masks]
+        # (a runtime word is built with name=None, details=None: it has the attribute, empty)
+        word = TypeRef(k, attrs={"_value": value, "_int_size": size, "_name": None, "_details": None,
+                                 "attributes": lambda attrs=attrs: list(attrs)})
         event = TypeRef("event", attrs={"value": word, "path": P(()), "type": TypeRef(k)})
         fmt_fn = mod.functions().get("format")
         fpar = [a_.arg for a_ in fmt_fn.args.args] if fmt_fn is not None else ["tpm_type", "path", "binary", "value"]
@@ -321,23 +359,4 @@ def m2_rows(run, project, L):
             rows = "a row that depends on the value in another way than showing its bits"
         except Imprecise as e_:
             rows = f"the row text has no fixed shape: {e_}"
-        want = []
-        for nm, m_ in masks:
-            text_ = [("v", i) if (m_ >> i) & 1 else "." for i in range(width - 1, -1, -1)]
-            want.append(("row", None, P((("node", nm),)), None, SymStr(text_) if any(isinstance(x, tuple) for x in text_) else "".join(text_)))
-        n += 1
-        ok = rows == want
-        why = ""
-        if not ok:
-            if isinstance(rows, str):
-                why = rows
-            elif len(rows) != len(want):
-                why = f"{len(rows)} rows for {len(want)} masks"
-            else:
-                j = next(i for i, (a_, b_) in enumerate(zip(rows, want)) if a_ != b_)
-                why = f"row {j} ({masks[j][0]}, mask {masks[j][1]:#x}) is {rows[j]!r}, required {want[j]!r}"
-        run.ob("M2", ok, f"{k}: one row per mask, value bits under mask ones and dots elsewhere",
-               f"the bit rows of a {k} word are wrong: {why} (v = a bit of the value, . = a dot; a row must show exactly the bits of its "
-               "mask, at their positions in the word, padded to the full width)", module=mod, node=f, func="pretty_attrs",
-               construct="pretty_attrs rows")
-    run.require(n >= 12, f"M2: bit rows folded over only {n} attribute types")
+        return rows
